@@ -544,6 +544,7 @@ func runStage(id string, st stage, tier string, seed int64, replay, work, bin, r
 		info["race_reports_attributed"] = attributed
 		res.Extra["race_reports_total"] = n
 		res.Extra["race_reports_attributed"] = attributed
+		res.Extra["race_reports_in_node_construction_by_harness"] = harnessInduced
 		if attributed > 0 {
 			p := filepath.Join(replayDir, fmt.Sprintf("%s-%s-seed%d-race.log", id, st.Name, seed))
 			os.WriteFile(p, []byte(sample), 0o644)
@@ -613,6 +614,14 @@ func raceReports(dir string, anchors []string) (total, attributed int, sample st
 			if !strings.Contains(blk, repoPrefix()) {
 				hit = false
 			}
+			// nor one between the running node and the construction of another node in the same process
+			// (twin / follower / restarted cores opened by the harness: core.NewCore writes package-level
+			// tables such as vm.PrecompiledContracts that the running node reads; production builds its
+			// cores before any of them processes blocks)
+			if raceInNodeConstruction(blk) {
+				hit = false
+				harnessInduced++
+			}
 			if hit {
 				sig := raceSig(blk)
 				if !seen[sig] {
@@ -626,6 +635,22 @@ func raceReports(dir string, anchors []string) (total, attributed int, sample st
 		}
 	}
 	return
+}
+
+var harnessInduced int
+
+// raceInNodeConstruction: one of the two racing accesses (not merely the goroutine's creation
+// stack) runs inside core.NewCore.
+func raceInNodeConstruction(blk string) bool {
+	for _, part := range strings.Split(blk, "\n\n") {
+		h := strings.TrimSpace(part)
+		if strings.HasPrefix(h, "Write at") || strings.HasPrefix(h, "Read at") || strings.HasPrefix(h, "Previous write at") || strings.HasPrefix(h, "Previous read at") {
+			if strings.Contains(part, "go-quai/core.NewCore()") {
+				return true
+			}
+		}
+	}
+	return false
 }
 
 // repoPrefix is the path prefix of the repository under test in stack traces: "/repo/", or the
